@@ -75,7 +75,17 @@ fn set_connect_field(c: &mut ConnectSpec, i: usize, var: usize) {
     let l = lens[var.min(lens.len() - 1)];
     let u16s = [10u16, 1, 255, 256, 65535, 0, 10, 10];
     let u32s = [10u32, 1, 255, 65536, u32::MAX, 0, 10, 10];
-    let mk_s = |l: usize| if var == 8 { utf(5) } else { s(l) };
+    // (9 .. 13: content that a well-meaning normalisation would touch - surrounding blanks, tabs, line
+    // ends, DEL; all of it legal in an MQTT string and to be carried exactly as given)
+    let mk_s = |l: usize| match var {
+        8 => utf(5),
+        9 => " lead".to_string(),
+        10 => "trail ".to_string(),
+        11 => "line\r\n".to_string(),
+        12 => "\n".to_string(),
+        13 => "\ttab\u{7f}\r".to_string(),
+        _ => s(l),
+    };
     match i {
         0 => c.client_id = Some(mk_s(l)),
         1 => c.keep_alive = Some(u16s[var.min(7)]),
@@ -268,7 +278,7 @@ pub fn scenario(name: &str, params: &Value) -> Scenario {
         }
         "C01/connect-values" => Box::new(move |chz, ex| {
             let field = chz.choose(N_CONNECT_FIELDS);
-            let var = 1 + chz.choose(8);
+            let var = 1 + chz.choose(13);
             let full = chz.choose(2) == 1;
             let mut mask = if full { (1u32 << 24) - 1 } else { 1 << field };
             if field >= 15 {
@@ -445,8 +455,20 @@ pub fn scenario(name: &str, params: &Value) -> Scenario {
             let kind = chz.choose(4);
             let full = chz.choose(2) == 1;
             let l = lens[chz.choose(lens.len())];
-            let multibyte = chz.choose(2) == 1;
-            let st = |l: usize| if multibyte { utf((l / 3).max(1).min(20000)) } else { s(l) };
+            let content = chz.choose(3);
+            let multibyte = content == 1;
+            // (content 2: blanks, tabs, line ends, DEL around a short text - one shape per length slot)
+            let tricky = [" ", "\n", "a\r\n", " a ", "\tb\t", "x\u{7f}", "\r"];
+            let li = lens.iter().position(|x| *x == l).unwrap_or(0);
+            let st = |l: usize| {
+                if content == 2 {
+                    tricky[li % tricky.len()].to_string()
+                } else if multibyte {
+                    utf((l / 3).max(1).min(20000))
+                } else {
+                    s(l)
+                }
+            };
             let spec = match kind {
                 0 => {
                     let field = chz.choose(8);
